@@ -193,6 +193,14 @@ class Rewrites(Suite):
         inst = lambda kw: {'__inst__': 'Plain', 'args': [1], 'kwargs': kw}
         out = [dict(orig=mk(inst({'k': 1, 'a': 2})), rewr=mk(inst({'a': 2, 'k': 1})), moves=['permute-object-args'], prefix=''),
                dict(orig=mk({'k': {'z': 1, 'b': 'q'}}), rewr=mk({'k': {'b': 'q', 'z': 1}}), moves=['permute'], prefix='')]
+        # parameter objects defined in the config *inside* a list or a mapping value: keyword order of the definition, an
+        # ignored argument (verbose), a default-valued argument spelled out - the object's own repr() decides, not its definition
+        a1 = lambda **kw: {'__auto__': 'AutoA', 'args': kw}
+        for o1, o2, tag in ((a1(a=1, b=2), a1(b=2, a=1), 'permute-nested-definition'),
+                            (a1(a=1, b=2), a1(a=1, b=2, verbose=True), 'nested-ignored-argument'),
+                            (a1(a=[1, 'x'], b=2), a1(verbose=True, b=2, a=[1, 'x']), 'permute-nested-definition')):
+            out.append(dict(orig=mk([o1, 'plain']), rewr=mk([o2, 'plain']), moves=[tag], prefix=''))
+            out.append(dict(orig=mk({'first': o1, 'n': 1}), rewr=mk({'first': o2, 'n': 1}), moves=[tag], prefix=''))
         # mapping keys permuted inside programmatically built data whose mappings are subclasses of dict
         for kind in ('ordered', 'attr', 'default'):
             out.append(dict(orig=dict(mk({'k': {'z': 1, 'b': {'y': [1], 'a': 2}}}), mapping_class=kind),
@@ -256,6 +264,17 @@ class Rewrites(Suite):
                             rewr=dict(classes=nc, files=dict(files, **{'wrapped/base.json': inner}), context=None,
                                       base={'name': 'wrapper', 'data': {'uses': f'wrapped/base.json as {nsname}'}}),
                             moves=[f'mount:{nsname}:reference-names-mount-namespace'], prefix=f'{nsname}::'))
+        # an input in a nested namespace (`pretrain::feat`), the pipeline mounted under a namespace whose name ends the inner
+        # one (`train`, `rain`) or repeats it after a prefix: only the leading own namespace is cut from the input names
+        nc2 = [dict(K(0, 'Feat', params=[P('p')]), name='feat'), dict(K(1, 'Model', meta_inputs=[{'name': 'pretrain::feat'}]), name='model'),
+               dict(K(2, 'Top', meta_inputs=[{'cls': 1}]), name='top')]
+        inner2 = {'tasks': ['@M.Model', '@M.Top'], 'uses': 'feat.json as pretrain'}
+        files2 = {'feat.json': {'tasks': ['@M.Feat'], 'p': 2}}
+        for nsname in ('train', 'rain', 'stage::train', 'exp'):
+            out.append(dict(orig=dict(classes=nc2, files=dict(files2), context=None, base={'name': 'm', 'data': inner2}),
+                            rewr=dict(classes=nc2, files=dict(files2, **{'wrapped/base.json': inner2}), context=None,
+                                      base={'name': 'wrapper', 'data': {'uses': f'wrapped/base.json as {nsname}'}}),
+                            moves=[f'mount:{nsname}'], prefix=f'{nsname}::'))
         # two used config files of one base name in different directories; renaming one of them moves nothing
         pc = [dict(K(0, 'PartEu', params=[P('sel')]), name='part_eu'), dict(K(1, 'PartUs', params=[P('sel')]), name='part_us'),
               dict(K(2, 'Collect', meta_inputs=[{'name': '~part_.*'}]), name='collect'),
@@ -496,8 +515,39 @@ def has_set_attribute(v):
 def placeholder_default_class(violation, known):
     """K2c: the only rewriting changed global_vars, and a parameter under dont_persist_default_value holds a placeholder
     string that equals its default under one of the two values"""
-    return (violation.get('suite') == 'rewritings'
-            and violation.get('case', {}).get('moves') == ['global-vars:placeholder-equals-default'])
+    if violation.get('suite') != 'rewritings':
+        return False
+    case = violation.get('case', {})
+    moves = case.get('moves') or []
+    if moves == ['global-vars:placeholder-equals-default']:
+        return True
+    # the same finding inside a composed rewriting: the values of the placeholders were changed, and the task whose
+    # location moved has a parameter under dont_persist_default_value that holds a substituted string which equals its
+    # default before or after the rewriting, but not both times
+    if violation.get('model_disagrees') or not any(str(m).startswith('global-vars') for m in moves):
+        return False
+    import re
+    m = re.search(r'the location of (\S+) moved', str(violation.get('oracle', '')))
+    obs = violation.get('observed') or {}
+    if not m or 'a' not in obs or 'b' not in obs:
+        return False
+    name = m.group(1)
+    ta = obs['a'].get('tasks', {}).get(name)
+    tb = obs['b'].get('tasks', {}).get(case.get('prefix', '') + name)
+    if not ta or not tb:
+        return False
+    shown = lambda v: v['__reprstr__'][0] if isinstance(v, dict) and '__reprstr__' in v else None
+    for k in case.get('orig', {}).get('classes', []):
+        slug = (k.get('group') + ':' if k.get('group') else '') + k['name']
+        if slug != ta.get('slug'):
+            continue
+        for prm in k['params']:
+            if not prm.get('dropdef') or prm.get('default') is None:
+                continue
+            va, vb = shown(ta['params'].get(prm['name'])), shown(tb['params'].get(prm['name']))
+            if va is not None and vb is not None and (va == prm['default'][0]) != (vb == prm['default'][0]):
+                return True
+    return False
 
 
 def quoted_placeholder_class(violation, known):
